@@ -754,5 +754,5 @@ Lemma round_non_finite_witness :
     f_round pow10 kw v = BOk (VFloat S754_nan).
 Proof.
   exists (fun _ => S754_infinity false), [(s2l "precision", VInt U64 400)], (VFloat (S754_finite false 5629499534213120 (-51))).
-  repeat split. vm_compute. reflexivity.
+  split; [reflexivity|]. split; [reflexivity|]. vm_compute. reflexivity.
 Qed.
